@@ -1925,12 +1925,9 @@ Variable dbg : bool.
 Definition uleb_enc (e : list byte) (v : N) : Prop := forall rest, read_uleb128 dbg (e ++ rest) = Ok (v, rest).
 Definition sleb_enc (e : list byte) (z : Z) : Prop := forall rest, read_sleb128 dbg (e ++ rest) = Ok (z, rest).
 Hypothesis Hu : forall v, v < two64 -> uleb_enc (enc_uleb v) v.
-Hypothesis Hs : forall z, in_i64 z = true -> sleb_enc (enc_sleb z) z.
 
 Lemma rd_u v rest : v < two64 -> read_uleb128 dbg (enc_uleb v ++ rest) = Ok (v, rest).
 Proof. intros H. apply Hu. exact H. Qed.
-Lemma rd_s z rest : in_i64 z = true -> read_sleb128 dbg (enc_sleb z ++ rest) = Ok (z, rest).
-Proof. intros H. apply Hs. exact H. Qed.
 
 Lemma rd_reg_enc r rest : r < two16 -> rd_reg dbg (enc_uleb r ++ rest) = Ok (r, rest).
 Proof.
@@ -2045,16 +2042,8 @@ Proof.
   replace (off + N.of_nat (S (length (enc_uleb r)))) with (off + 1 + ulen r) by (unfold ulen; lia).
   reflexivity.
 Qed.
-Lemma dec_offextsf r o : r < two16 -> in_i64 o = true -> P (WOffsetExtendedSf r o) = Ok (IOffsetExtendedSf r o, rest).
-Proof. intros Hr Hf. cbn [enc_wire]. op_literal 17. reg_then. rewrite rd_s by exact Hf. reflexivity. Qed.
-Lemma dec_defcfasf r o : r < two16 -> in_i64 o = true -> P (WDefCfaSf r o) = Ok (IDefCfaSf r o, rest).
-Proof. intros Hr Hf. cbn [enc_wire]. op_literal 18. reg_then. rewrite rd_s by exact Hf. reflexivity. Qed.
-Lemma dec_defcfaoffsf o : in_i64 o = true -> P (WDefCfaOffsetSf o) = Ok (IDefCfaOffsetSf o, rest).
-Proof. intros Hf. cbn [enc_wire]. op_literal 19. cbn [N.eqb Pos.eqb]. rewrite rd_s by exact Hf. reflexivity. Qed.
 Lemma dec_valoff r o : r < two16 -> o < two64 -> P (WValOffset r o) = Ok (IValOffset r o, rest).
 Proof. intros Hr Hf. cbn [enc_wire]. op_literal 20. reg_then. rewrite rd_u by exact Hf. reflexivity. Qed.
-Lemma dec_valoffsf r o : r < two16 -> in_i64 o = true -> P (WValOffsetSf r o) = Ok (IValOffsetSf r o, rest).
-Proof. intros Hr Hf. cbn [enc_wire]. op_literal 21. reg_then. rewrite rd_s by exact Hf. reflexivity. Qed.
 Lemma dec_valexpr r e : r < two16 -> N.of_nat (length e) < two64 ->
   P (WValExpression r e) = Ok (wire_meaning off (WValExpression r e), rest).
 Proof.
@@ -2068,7 +2057,22 @@ Lemma dec_argssize n : n < two64 -> P (WArgsSize n) = Ok (IArgsSize n, rest).
 Proof. intros Hf. cbn [enc_wire]. op_literal 46. cbn [N.eqb Pos.eqb]. rewrite rd_u by exact Hf. reflexivity. Qed.
 Lemma dec_negate : P WNegateRaState = if aa then Ok (INegateRaState, rest) else Err EUnknownCallFrameInstruction.
 Proof. cbn [enc_wire]. op_literal 45. cbn [N.eqb Pos.eqb andb]. destruct aa; reflexivity. Qed.
+
+(* the four forms with a signed LEB128 operand *)
+Hypothesis Hs : forall z, in_i64 z = true -> sleb_enc (enc_sleb z) z.
+Lemma rd_s z rest' : in_i64 z = true -> read_sleb128 dbg (enc_sleb z ++ rest') = Ok (z, rest').
+Proof. intros H. apply Hs. exact H. Qed.
+Lemma dec_offextsf r o : r < two16 -> in_i64 o = true -> P (WOffsetExtendedSf r o) = Ok (IOffsetExtendedSf r o, rest).
+Proof. intros Hr Hf. cbn [enc_wire]. op_literal 17. reg_then. rewrite rd_s by exact Hf. reflexivity. Qed.
+Lemma dec_defcfasf r o : r < two16 -> in_i64 o = true -> P (WDefCfaSf r o) = Ok (IDefCfaSf r o, rest).
+Proof. intros Hr Hf. cbn [enc_wire]. op_literal 18. reg_then. rewrite rd_s by exact Hf. reflexivity. Qed.
+Lemma dec_defcfaoffsf o : in_i64 o = true -> P (WDefCfaOffsetSf o) = Ok (IDefCfaOffsetSf o, rest).
+Proof. intros Hf. cbn [enc_wire]. op_literal 19. cbn [N.eqb Pos.eqb]. rewrite rd_s by exact Hf. reflexivity. Qed.
+Lemma dec_valoffsf r o : r < two16 -> in_i64 o = true -> P (WValOffsetSf r o) = Ok (IValOffsetSf r o, rest).
+Proof. intros Hr Hf. cbn [enc_wire]. op_literal 21. reg_then. rewrite rd_s by exact Hf. reflexivity. Qed.
 End Cases.
+
+Hypothesis Hs : forall z, in_i64 z = true -> sleb_enc (enc_sleb z) z.
 
 Theorem insn_decode_gen be asize aa off w rest :
   valid_asize asize = true -> wire_ok asize w = true ->
@@ -2104,11 +2108,11 @@ Proof.
   - apply dec_defcfaoff; lia.
   - apply dec_defcfaexpr; lia.
   - apply dec_expr; lia.
-  - apply dec_offextsf; [lia|exact Hw].
-  - apply dec_defcfasf; [lia|exact Hw].
-  - apply dec_defcfaoffsf; exact Hw.
+  - apply dec_offextsf; [exact Hs|lia|exact Hw].
+  - apply dec_defcfasf; [exact Hs|lia|exact Hw].
+  - apply dec_defcfaoffsf; [exact Hs|exact Hw].
   - apply dec_valoff; lia.
-  - apply dec_valoffsf; [lia|exact Hw].
+  - apply dec_valoffsf; [exact Hs|lia|exact Hw].
   - apply dec_valexpr; lia.
   - apply dec_argssize; lia.
   - apply dec_negate.
@@ -2239,4 +2243,66 @@ Proof.
       apply N.div_lt_upper_bound; [discriminate|]. lia.
     + unfold two64 in Hv. apply N.div_lt_upper_bound; [discriminate|].
       assert (18446744073709551616 < 128 * 128 ^ N.of_nat 18) by (vm_compute; reflexivity). lia.
+Qed.
+
+(* wire forms without a signed LEB128 operand *)
+Definition unsigned_wire (w : wire) : bool :=
+  match w with
+  | WOffsetExtendedSf _ _ | WDefCfaSf _ _ | WDefCfaOffsetSf _ | WValOffsetSf _ _ => false
+  | _ => true
+  end.
+
+Definition decode_expect (aa : bool) (off : N) (w : wire) (rest : list byte) : res (insn * list byte) :=
+  match w with
+  | WNegateRaState => if aa then Ok (wire_meaning off w, rest) else Err EUnknownCallFrameInstruction
+  | _ => Ok (wire_meaning off w, rest)
+  end.
+
+(* every opcode, both vendors, given that the signed operands' encoder is read back *)
+Theorem insn_decode_signed_hyp dbg :
+  (forall z, in_i64 z = true -> sleb_enc dbg (enc_sleb z) z) ->
+  forall be asize aa off w rest,
+    valid_asize asize = true -> wire_ok asize w = true ->
+    parse_insn dbg be asize aa off (enc_wire be asize w ++ rest) = decode_expect aa off w rest.
+Proof.
+  intros Hs be asize aa off w rest Hv Hw.
+  apply (insn_decode_gen dbg (fun v H rest' => enc_uleb_read dbg v rest' H) Hs); assumption.
+Qed.
+
+(* ... and unconditionally for the 24 forms whose operands are unsigned *)
+Theorem insn_decode_unsigned_thm dbg be asize aa off w rest :
+  valid_asize asize = true -> wire_ok asize w = true -> unsigned_wire w = true ->
+  parse_insn dbg be asize aa off (enc_wire be asize w ++ rest) = decode_expect aa off w rest.
+Proof.
+  intros Hv Hw Hu.
+  pose proof (fun v H rest' => enc_uleb_read dbg v rest' H) as HU.
+  destruct w; try discriminate Hu; cbn [wire_ok] in Hw;
+    repeat match type of Hw with
+           | _ && _ = true => apply andb_prop in Hw; let H1 := fresh "Hw" in destruct Hw as [H1 Hw]
+           end;
+    unfold regb, u64b, i64b in *; cbn [decode_expect wire_meaning].
+  - apply dec_adv0; try exact HU; try exact Hv; lia.
+  - apply dec_off0; try exact HU; try exact Hv; lia.
+  - apply dec_res0; try exact HU; try exact Hv; lia.
+  - apply dec_nop; try exact HU; try exact Hv; lia.
+  - apply dec_setloc; try exact HU; try exact Hv; lia.
+  - apply dec_adv1; try exact HU; try exact Hv; lia.
+  - apply dec_adv2; try exact HU; try exact Hv; lia.
+  - apply dec_adv4; try exact HU; try exact Hv; lia.
+  - apply dec_offext; try exact HU; try exact Hv; lia.
+  - apply dec_resext; try exact HU; try exact Hv; lia.
+  - apply dec_undef; try exact HU; try exact Hv; lia.
+  - apply dec_same; try exact HU; try exact Hv; lia.
+  - apply dec_register; try exact HU; try exact Hv; lia.
+  - apply dec_remember; try exact HU; try exact Hv; lia.
+  - apply dec_restore_state; try exact HU; try exact Hv; lia.
+  - apply dec_defcfa; try exact HU; try exact Hv; lia.
+  - apply dec_defcfareg; try exact HU; try exact Hv; lia.
+  - apply dec_defcfaoff; try exact HU; try exact Hv; lia.
+  - apply dec_defcfaexpr; try exact HU; try exact Hv; lia.
+  - apply dec_expr; try exact HU; try exact Hv; lia.
+  - apply dec_valoff; try exact HU; try exact Hv; lia.
+  - apply dec_valexpr; try exact HU; try exact Hv; lia.
+  - apply dec_argssize; try exact HU; try exact Hv; lia.
+  - apply dec_negate; exact HU.
 Qed.
